@@ -57,6 +57,15 @@ impl Vm {
     let alloc = Bump::new();
     let compiler = Compiler::new(module, &alloc, &line_offsets, file_id, repl, self, gc);
 
+    // every repl entry is compiled into the same module and the code of earlier entries
+    // keeps the cache slots it was given, so a new entry numbers its slots after them
+    let compiler = match self.inline_cache.get(module.id()) {
+      Some(cache) if repl => {
+        compiler.with_cache_offsets(cache.property_slots(), cache.invoke_slots())
+      },
+      _ => compiler,
+    };
+
     #[cfg(feature = "debug")]
     let compiler = compiler.with_io(self.io.clone());
 
@@ -69,7 +78,13 @@ impl Vm {
         cache_id_emitter.invoke_count(),
       );
 
-      if module.id() < self.inline_cache.len() {
+      if repl && module.id() < self.inline_cache.len() {
+        // keep what earlier entries cached and make room for this entry's slots
+        self.inline_cache[module.id()].grow(
+          cache_id_emitter.property_count(),
+          cache_id_emitter.invoke_count(),
+        );
+      } else if module.id() < self.inline_cache.len() {
         self.inline_cache[module.id()] = cache;
       } else {
         self.inline_cache.push(cache);
